@@ -188,13 +188,51 @@ class Req:
         return 'checked %s x%s %d' % (self.msg['name'], wire.hexs(self.padded()), self.n)
 
 
-def requests_for_image(c, m, bo, img, marks, tops):
+# per-image request budgets: images of the strengthened generator reach several KB; small images (the majority) still
+# get EVERY truncation point and EVERY header value, large ones a deterministic selection centred on the header values
+BUDGET = {'quick': {'points': 160, 'marks': 24, 'group_points': 64, 'groups': 3},
+          'thorough': {'points': 700, 'marks': 150, 'group_points': 220, 'groups': 8}}
+
+
+def pick_points(ln, interesting, budget, beyond):
+    """truncation points for an image of `ln` bytes: all of 0..ln if they fit the budget, else the start, the end,
+    the neighbourhood of every header value (`interesting` = [(off, size)]) and an even stride, cut to the budget"""
+    tail = [ln + d for d in beyond]
+    if ln + 1 + len(tail) <= budget:
+        return list(range(ln + 1)) + tail
+    must = set(range(0, min(ln, 33))) | set(range(max(0, ln - 6), ln + 1))
+    near = set()
+    for off, size in interesting:
+        near.update(x for x in range(off - 1, off + size + 2) if 0 <= x <= ln)
+    near -= must
+    room = max(0, budget - len(must) - len(tail))
+    near = sorted(near)
+    if len(near) > room * 3 // 4:
+        keep = room * 3 // 4
+        near = [near[(i * len(near)) // keep] for i in range(keep)] if keep else []
+    pts = must | set(near)
+    room = budget - len(pts) - len(tail)
+    if room > 0:
+        rest = [x for x in range(ln + 1) if x not in pts]
+        pts.update(rest[(i * len(rest)) // room] for i in range(room))
+    return sorted(pts) + tail
+
+
+def requests_for_image(c, m, bo, img, marks, tops, budget=None, rng=None):
+    budget = budget or BUDGET['thorough']
+    rng = rng or random.Random(len(img))
     reqs = []
     ln = len(img)
     trunc = {'mut_field': 'truncate', 'mut_value': '-', 'prim': '-', 'owner': '-'}
-    for n in list(range(ln + 1)) + [ln + 1, ln + 3]:
+    spots = [(mk['off'], mk['size']) for mk in marks]
+    for n in pick_points(ln, spots, budget['points'], (1, 3)):
         reqs.append(Req(c, m, 'message', None, img, n, dict(trunc, n_minus_len=n - ln), n >= ln, ln))
-    for mark in marks:
+    chosen = marks
+    if len(marks) > budget['marks']:
+        # the message header value and the first few always, the rest sampled
+        head = marks[:6]
+        chosen = head + rng.sample(marks[6:], budget['marks'] - len(head))
+    for mark in chosen:
         for label, val in mutation_values(mark):
             mut = {'mut_field': mark['field'], 'mut_value': label, 'prim': mark['prim'], 'owner': mark['owner'],
                    'where': mark['where'], 'value': val}
@@ -205,10 +243,11 @@ def requests_for_image(c, m, bo, img, marks, tops):
             mut = {'mut_field': 'blockLength+numInGroup', 'mut_value': '0+max', 'prim': mark['prim'],
                    'owner': 'group', 'where': mark['where']}
             reqs.append(Req(c, m, 'message', None, both, ln, mut, False, ln))
-    for (gname, start, end) in tops:
+    for (gname, start, end) in tops[:budget['groups']]:
         sub = img[start:]
         gl = end - start
-        for n in list(range(gl + 1)) + [gl + 1]:
+        inside = [(mk['off'] - start, mk['size']) for mk in marks if start <= mk['off'] < end]
+        for n in pick_points(gl, inside, budget['group_points'], (1,)):
             reqs.append(Req(c, m, 'group', gname, sub, n, dict(trunc, n_minus_len=n - gl), n >= gl, gl))
     return reqs
 
@@ -275,6 +314,11 @@ def judge(r, mk, ik, variant, feats):
         if steps > bound:
             fails.append((dict(base, what='unbounded-loop', observed='steps>bound', zero_length_entries=mk['ze'] > 0,
                                steps=steps, bound=bound), obs))
+    # checked build: SBEPP_SIZE_CHECK (since /repo 7262f97 also with begin > end) turns every access the release
+    # model logs beyond n into the assertion handler - or an earlier check fires / the watchdog or UBSan ends the call
+    if variant == 'chk' and mk['over'] is not None and res not in ('ASSERT', 'UB', 'TIMEOUT', 'FAULT'):
+        mism.append(dict(obs, why='the release model reads beyond n at step %d but the checked build returned a verdict '
+                         'without firing SBEPP_SIZE_CHECK' % mk['over']['step'], over=mk['over']))
     # implementation vs model (release build only: the model is of that build)
     if variant == 'rel':
         if mk['over'] is not None:
@@ -358,7 +402,7 @@ def correspond(chk, run, variants, values_per_msg):
                 rng = random.Random(zlib.crc32(repr((chk.seed, c.idx, m['name'], k, run.salt)).encode()))
                 v = wire.gen_message_value(rng, c.layout['byteOrder'], m, c.s['id'], c.s['version'], ext_ok=True)
                 img, marks, tops = flatten_message(bo, m, v)
-                reqs += requests_for_image(c, m, bo, img, marks, tops)
+                reqs += requests_for_image(c, m, bo, img, marks, tops, BUDGET[chk.tier], rng)
     chk.log('requests: %d' % len(reqs))
     # model + spec
     mouts = run.model_lines([r.model_line() for r in reqs])
